@@ -1,12 +1,12 @@
 import Model.Style
-import Generated.GoCode
+import Generated.GoStyle
 import Proofs.Gen14
 
 /-
   The tie by translation for C14 (and C01, C12 through the labels): every function of
   style/style.go except `Problem` (an `error` argument) and `superscript` (a closure over
   `strings.Map`; it is the model's `Style.superscript`, compared differentially) is translated
-  from the source on every run (`Generated/GoCode.lean`, namespace `GenStyle`, the processed
+  from the source on every run (`Generated/GoStyle.lean`, namespace `GenStyle`, the processed
   colours of the configuration as the parameter `c`); the theorems below say the generated code
   computes what the hand-written model (`Model/Style.lean`) computes.
 -/
